@@ -457,3 +457,15 @@ fn untyped_metadata() -> ExtractorMetadata {
         extension_mode: ExtensionMode::None,
     }
 }
+
+/// Verification hooks (compiled only with `--cfg dropshot_verif`).
+#[cfg(dropshot_verif)]
+#[doc(hidden)]
+pub mod verif_hooks {
+    pub fn streaming_body_new(
+        body: crate::Body,
+        cap: usize,
+    ) -> super::StreamingBody {
+        super::StreamingBody::new(body, cap)
+    }
+}
